@@ -268,6 +268,57 @@ fn minimal_failing<'q>(l: &Layout, q: &'q Q) -> &'q Q {
     q
 }
 
+fn unwrap_wrappers(q: &Q) -> &Q {
+    match q {
+        Q::Boost(c, _) | Q::Const(c, _) => unwrap_wrappers(c),
+        _ => q,
+    }
+}
+
+fn is_union_like(q: &Q) -> bool {
+    match unwrap_wrappers(q) {
+        Q::DisMax(qs, _) => qs.len() >= 2,
+        Q::Bool { clauses, .. } => clauses.iter().filter(|c| c.0 == Oc::Should).count() >= 2,
+        _ => false,
+    }
+}
+
+/// value-free, seed-stable name of the minimal failing node: leaf kind, or for a composite node
+/// its constructor plus a few coarse structural features
+fn composite_sig(min: &Q, l: &Layout) -> String {
+    let big = l.searcher.segment_readers().iter().any(|r| r.max_doc() > 4096);
+    match min {
+        Q::Bool { clauses, msm } => {
+            let mut f = String::from("bool");
+            if clauses.iter().any(|c| c.0 == Oc::Must) {
+                f.push_str("+must");
+            }
+            if clauses.iter().any(|c| c.0 == Oc::MustNot) {
+                f.push_str("+not");
+            }
+            if clauses.iter().any(|c| c.0 == Oc::Should) {
+                f.push_str("+should");
+            }
+            if msm.map(|m| m >= 2).unwrap_or(false) {
+                f.push_str("+msm>=2");
+            }
+            if clauses.iter().any(|c| c.0 != Oc::MustNot && is_union_like(&c.1)) {
+                f.push_str("+nested-union-leg");
+            }
+            if big {
+                f.push_str("+segment>4096");
+            }
+            f
+        }
+        Q::DisMax(qs, _) => format!(
+            "dismax{}{}",
+            if qs.iter().any(is_union_like) { "+nested-union-leg" } else { "" },
+            if big { "+segment>4096" } else { "" }
+        ),
+        _ => min.sig_kind(),
+    }
+}
+
 /// collapses collector names to their path family (keeps signatures stable)
 fn family(n: &str) -> &'static str {
     if n.ends_with("count") && !n.contains('.') {
@@ -394,7 +445,7 @@ fn check_pair(rep: &mut Report, l: &Layout, q: &Q, sample: bool) {
         }
     }
     let min = minimal_failing(l, q);
-    let kind = min.sig_kind();
+    let kind = composite_sig(min, l);
     // -- class: RangeQuery routed to the fast-field path of a bool field is refused ------------
     if let Q::RangeTyped { ty, .. } = min {
         if *ty == T_B
@@ -469,11 +520,23 @@ fn check_pair(rep: &mut Report, l: &Layout, q: &Q, sample: bool) {
         format!("api-error:{}", classes.into_iter().collect::<Vec<_>>().join("+"))
     } else if v.dup {
         "duplicate-address".to_string()
-    } else if v.disagree {
-        let fam: BTreeSet<&str> = v.wrong.iter().map(|n| family(n)).collect();
-        format!("collectors-disagree:wrong={}", fam.into_iter().collect::<Vec<_>>().join("+"))
     } else {
-        "all-collectors-contradict-oracle".to_string()
+        let missing = v.detail.iter().any(|d| d.get("missing_ids").and_then(|x| x.as_array()).map(|a| !a.is_empty()).unwrap_or(false)
+            || d.get("count").and_then(|c| c.as_u64()).map(|c| (c as usize) < must.len()).unwrap_or(false));
+        let extra = v.detail.iter().any(|d| d.get("unexpected_ids").and_then(|x| x.as_array()).map(|a| !a.is_empty()).unwrap_or(false)
+            || d.get("count").and_then(|c| c.as_u64()).map(|c| (c as usize) > may.len()).unwrap_or(false));
+        let dir = match (missing, extra) {
+            (true, false) => "docs-missing",
+            (false, true) => "docs-unexpected",
+            (true, true) => "docs-missing-and-unexpected",
+            _ => "open-zone",
+        };
+        if v.disagree {
+            let fam: BTreeSet<&str> = v.wrong.iter().map(|n| family(n)).collect();
+            format!("{dir}:collectors-disagree:wrong={}", fam.into_iter().collect::<Vec<_>>().join("+"))
+        } else {
+            format!("{dir}:all-collectors-contradict-oracle")
+        }
     };
     let mut ids: Vec<u64> = vec![];
     for d in &v.detail {
